@@ -1,7 +1,283 @@
-/- Helper lemmas for LC/Props/C07.lean. TO BE PROVED (no sorry may remain). -/
+/- Helper lemmas for LC/Props/C07.lean. -/
 import LC.Spec.TokSpec
 import LC.Model.V2Match
 import LC.Proofs.Tok
+import LC.Proofs.MatchWF
+
 namespace LC.V2Tok
 open LC.Utf8
+
+theorem tokens_shift' (E : Env) (n : Bool) (pre X : List Rune) (hc : Clean (scanRunes E n pre))
+    (hl : 1 ≤ (scanRunes E n pre).line) :
+    tokenizeRunes E n (pre ++ X) =
+      appendDoc (scanRunes E n pre).doc (shiftDoc ((scanRunes E n pre).line - 1) (tokenizeRunes E n X)) := by
+  rw [← tokenize_from_clean' E n (scanRunes E n pre) hc hl X]
+  unfold tokenizeRunes scanRunes scanFrom
+  rw [List.foldl_append]
+
+theorem clean_after_plain_nl' (E : Env) (s : State) (hd : s.deferredEOL = false) (hw : s.deferredWord = false)
+    (hh : s.obuf.getLast? ≠ some hyphen) : Clean (step E true s nl) := by
+  rw [step_eq]
+  simp only [if_true]
+  unfold nlStep Clean
+  simp only [hh, and_false, if_false]
+  refine ⟨?_, trivial, hd, hw⟩
+  by_cases h2 : s.obuf = []
+  · simp [h2]
+  · simp [h2]
+
 end LC.V2Tok
+
+namespace LC.V2Match
+open LC.Score WFP
+
+theorem hashes_shift' (crc : Text → Nat) (wordOf : Nat → Text) (q : Nat) (hq : 0 < q) (pre xs : List Nat) (i : Nat)
+    (hi : i + q ≤ xs.length) :
+    (hashes crc wordOf q (pre ++ xs))[pre.length + i]? = (hashes crc wordOf q xs)[i]? := by
+  have hq0 : q ≠ 0 := by omega
+  unfold hashes
+  simp only [hq0, if_false, List.getElem?_map, List.length_append]
+  have h1 : pre.length + i < pre.length + xs.length + 1 - q := by omega
+  have h2 : i < xs.length + 1 - q := by omega
+  rw [List.getElem?_range h1, List.getElem?_range h2]
+  simp only [Option.map_some]
+  have : List.drop (pre.length + i) (pre ++ xs) = List.drop i xs := by
+    rw [← List.drop_drop, List.drop_left]
+  rw [this]
+
+/-! ### strictly monotone maps on `Nat` -/
+
+section Mono
+variable {f : Nat → Nat} (hf : ∀ a b, a < b → f a < f b)
+include hf
+
+theorem mono_lt (a b : Nat) : f a < f b ↔ a < b := by
+  constructor
+  · intro h
+    rcases Nat.lt_trichotomy a b with h1 | h1 | h1
+    · exact h1
+    · subst h1; omega
+    · have := hf _ _ h1; omega
+  · exact hf a b
+
+theorem mono_le (a b : Nat) : f a ≤ f b ↔ a ≤ b := by
+  rw [← Nat.not_lt, ← Nat.not_lt, mono_lt hf]
+
+theorem mono_eq (a b : Nat) : f a = f b ↔ a = b := by
+  constructor
+  · intro h
+    rcases Nat.lt_trichotomy a b with h1 | h1 | h1
+    · have := hf _ _ h1; omega
+    · exact h1
+    · have := hf _ _ h1; omega
+  · intro h; rw [h]
+
+/-! ### comparator, containment, overlap are preserved -/
+
+theorem matchLess_map {C : Type} (N : NumEnv C) (a b : Match C) :
+    matchLess N (mapMatch f a) (mapMatch f b) = matchLess N a b := by
+  unfold matchLess
+  simp only [mapMatch, ne_eq, mono_eq hf, mono_lt hf]
+  rfl
+
+theorem contains_map {C : Type} (a b : Match C) :
+    contains (mapMatch f a) (mapMatch f b) = contains a b := by
+  unfold contains
+  simp only [mapMatch, ge_iff_le, mono_le hf]
+
+theorem overlaps_map {C : Type} (a b : Match C) :
+    overlaps (mapMatch f a) (mapMatch f b) = overlaps a b := by
+  unfold overlaps between
+  simp only [mapMatch, mono_le hf]
+
+end Mono
+
+/-! ### sorting commutes with a comparator-preserving map -/
+
+theorem insertSorted_map {α β : Type} (g : α → β) (la : α → α → Bool) (lb : β → β → Bool)
+    (h : ∀ a b, lb (g a) (g b) = la a b) (x : α) (l : List α) :
+    insertSorted lb (g x) (l.map g) = (insertSorted la x l).map g := by
+  induction l with
+  | nil => rfl
+  | cons y ys ih =>
+    simp only [List.map_cons, insertSorted, h]
+    split
+    · rfl
+    · rw [List.map_cons, ih]
+
+theorem sortBy_map {α β : Type} (g : α → β) (la : α → α → Bool) (lb : β → β → Bool)
+    (h : ∀ a b, lb (g a) (g b) = la a b) (l : List α) :
+    sortBy lb (l.map g) = (sortBy la l).map g := by
+  induction l with
+  | nil => rfl
+  | cons x xs ih =>
+    rw [List.map_cons, WFP.sortBy_cons, WFP.sortBy_cons, ih, insertSorted_map g la lb h]
+
+/-! ### the retain pass -/
+
+theorem retainInner_map {C : Type} (N : NumEnv C) {f : Nat → Nat} (hf : ∀ a b, a < b → f a < f b)
+    (c : Match C) (earlier : List (Match C × Bool × Nat)) (props : List Nat) :
+    retainInner N (mapMatch f c) (earlier.map (fun p => (mapMatch f p.1, p.2.1, p.2.2))) props =
+      retainInner N c earlier props := by
+  induction earlier generalizing props with
+  | nil => rfl
+  | cons e rest ih =>
+    obtain ⟨o, retained, j⟩ := e
+    simp only [List.map_cons, retainInner, contains_map hf, overlaps_map hf, ih]
+    simp only [mapMatch, ne_eq, mono_eq hf]
+    rfl
+
+theorem retainPass_map {C : Type} (N : NumEnv C) {f : Nat → Nat} (hf : ∀ a b, a < b → f a < f b)
+    (l : List (Match C)) :
+    retainPass N (l.map (mapMatch f)) = retainPass N l := by
+  unfold retainPass
+  simp only [List.length_map, List.zipIdx_map, List.foldl_map]
+  congr 1
+  funext retain ci
+  have he : (((List.take ci.2 (List.map (mapMatch f) l)).zip (List.take ci.2 retain)).zipIdx.map
+        (fun p => (p.1.1, p.1.2, p.2))) =
+      ((((List.take ci.2 l).zip (List.take ci.2 retain)).zipIdx.map
+        (fun p => (p.1.1, p.1.2, p.2))).map (fun p => (mapMatch f p.1, p.2.1, p.2.2))) := by
+    rw [← List.map_take, List.zip_map_left, List.zipIdx_map, List.map_map, List.map_map]
+    rfl
+  simp only [Prod.map_fst, Prod.map_snd, id_eq, he, retainInner_map N hf]
+
+theorem zip_filterMap_map {α β : Type} (g : α → β) :
+    ∀ (l : List α) (bs : List Bool),
+      ((l.map g).zip bs).filterMap (fun (p : β × Bool) => if p.2 then some p.1 else none) =
+        ((l.zip bs).filterMap (fun (p : α × Bool) => if p.2 then some p.1 else none)).map g := by
+  intro l
+  induction l with
+  | nil => intro bs; simp
+  | cons x xs ih =>
+    intro bs
+    cases bs with
+    | nil => simp
+    | cons b bs =>
+      rw [List.map_cons, List.zip_cons_cons, List.zip_cons_cons, List.filterMap_cons, List.filterMap_cons]
+      cases b with
+      | true => simp [ih bs]
+      | false => simp [ih bs]
+
+theorem outOf_map {C : Type} (N : NumEnv C) {f : Nat → Nat} (hf : ∀ a b, a < b → f a < f b)
+    (cands : List (Match C)) :
+    outOf N (cands.map (mapMatch f)) = (outOf N cands).map (mapMatch f) := by
+  unfold outOf
+  simp only []
+  rw [sortBy_map (mapMatch f) (matchLess N) (matchLess N) (matchLess_map hf N), retainPass_map N hf,
+    zip_filterMap_map]
+
+/-! ### candidates -/
+
+theorem foldlM_map_commute {ε α β β' : Type} (φ : β → β') (F : β → α → Except ε β)
+    (F' : β' → α → Except ε β') (h : ∀ acc x, F' (φ acc) x = (F acc x).map φ) :
+    ∀ (l : List α) (init : β), l.foldlM F' (φ init) = (l.foldlM F init).map φ := by
+  intro l
+  induction l with
+  | nil => intro init; rfl
+  | cons x xs ih =>
+    intro init
+    rw [List.foldlM_cons, List.foldlM_cons, h]
+    cases hfx : F init x with
+    | error e => rfl
+    | ok b =>
+      simp only [Except.map, bind, Except.bind]
+      exact ih b
+
+theorem mapLines_size (f : Nat → Nat) (target : Array IdTok) : (mapLines f target).size = target.size := by
+  simp [mapLines]
+
+theorem mapLines_ids (f : Nat → Nat) (target : Array IdTok) :
+    (mapLines f target).toList.map (·.id) = target.toList.map (·.id) := by
+  simp [mapLines, Array.toList_map, List.map_map, Function.comp_def]
+
+theorem mapLines_line (f : Nat → Nat) (target : Array IdTok) (i : Nat) (h : i < target.size)
+    (h' : i < (mapLines f target).size) :
+    ((mapLines f target)[i]'h').line = f (target[i]'h).line := by
+  simp [mapLines]
+
+theorem docCandidates_map {C : Type} (N : NumEnv C) (f : Nat → Nat) (wordOf : Nat → Text)
+    (isDigitRune : Nat → Bool)
+    (decode : Text → List Nat) (induced : List (Text × List Text))
+    (diffOf : KDoc → Nat → Nat → Option (List (Diff Nat)))
+    (target : Array IdTok) (th : List Nat) (qt : Nat) (p : PDoc) :
+    docCandidates N wordOf isDigitRune decode induced diffOf (mapLines f target) th qt p =
+      (docCandidates N wordOf isDigitRune decode induced diffOf target th qt p).map
+        (List.map (mapMatch f)) := by
+  unfold docCandidates
+  rw [show findPotentialMatches N p.lookup p.qs p.doc.ids.length th qt (mapLines f target).size =
+      findPotentialMatches N p.lookup p.qs p.doc.ids.length th qt target.size from by rw [mapLines_size]]
+  split
+  · rfl
+  · rename_i ms _
+    refine foldlM_map_commute (List.map (mapMatch f)) _ _ ?_ ms []
+    intro acc m
+    simp only []
+    split
+    · rfl
+    · rename_i ds _
+      split
+      · by_cases hb : 0 ≤ m.tgtStart + ((score N wordOf isDigitRune decode induced p.doc ds).2.1 : Int) ∧
+            (m.tgtStart + ((score N wordOf isDigitRune decode induced p.doc ds).2.1 : Int)).toNat < target.size ∧
+            0 ≤ m.tgtEnd - ((score N wordOf isDigitRune decode induced p.doc ds).2.2 : Int) - 1 ∧
+            (m.tgtEnd - ((score N wordOf isDigitRune decode induced p.doc ds).2.2 : Int) - 1).toNat < target.size
+        · have hb' := hb
+          rw [← mapLines_size f target] at hb'
+          rw [dif_pos hb, dif_pos hb']
+          simp only [Except.map, List.map_append, List.map_cons, List.map_nil, mapMatch]
+          rw [mapLines_line f target _ hb.2.1 hb'.2.1, mapLines_line f target _ hb.2.2.2 hb'.2.2.2]
+        · have hb' := hb
+          rw [← mapLines_size f target] at hb'
+          rw [dif_neg hb, dif_neg hb']
+          rfl
+      · rfl
+
+theorem crMatches_map {C : Type} (N : NumEnv C) (f : Nat → Nat) (crs : List Nat) :
+    crMatches N (crs.map f) = (crMatches N crs).map (mapMatch f) := by
+  simp [crMatches, List.map_map, mapMatch, Function.comp_def]
+
+theorem candFold_map {C : Type} (N : NumEnv C) (f : Nat → Nat) (crc : Text → Nat) (wordOf : Nat → Text)
+    (isDigitRune : Nat → Bool) (decode : Text → List Nat) (induced : List (Text × List Text))
+    (diffOf : KDoc → Nat → Nat → Option (List (Diff Nat)))
+    (cntT : Nat → Nat) (docs : List PDoc) (target : Array IdTok) (crs : List Nat) :
+    candFold N crc wordOf isDigitRune decode induced diffOf cntT docs (mapLines f target) (crs.map f) =
+      (candFold N crc wordOf isDigitRune decode induced diffOf cntT docs target crs).map
+        (List.map (mapMatch f)) := by
+  unfold candFold
+  simp only [mapLines_ids, crMatches_map]
+  refine foldlM_map_commute (List.map (mapMatch f)) _ _ ?_ _ _
+  intro acc p
+  simp only [docCandidates_map]
+  cases docCandidates N wordOf isDigitRune decode induced diffOf target _ _ p with
+  | error e => rfl
+  | ok ms => simp [Except.map]
+
+theorem match_line_monotone' {C : Type} (N : NumEnv C) (f : Nat → Nat) (hf : ∀ a b, a < b → f a < f b)
+    (crc : Text → Nat) (wordOf : Nat → Text) (isDigitRune : Nat → Bool) (decode : Text → List Nat)
+    (induced : List (Text × List Text)) (diffOf : KDoc → Nat → Nat → Option (List (LC.Score.Diff Nat)))
+    (cntT : Nat → Nat) (docs : List PDoc) (target : Array IdTok) (crs : List Nat) (r : Results C)
+    (h : matchModel N crc wordOf isDigitRune decode induced diffOf cntT docs target crs = .ok r) :
+    ∃ r', matchModel N crc wordOf isDigitRune decode induced diffOf cntT docs (mapLines f target) (crs.map f) = .ok r' ∧
+      r'.ms = r.ms.map (mapMatch f) := by
+  rw [matchModel_eq] at h ⊢
+  by_cases hfp : firstPass N cntT docs = []
+  · rw [if_pos hfp] at h ⊢
+    cases h
+    exact ⟨_, rfl, rfl⟩
+  · rw [if_neg hfp] at h ⊢
+    rw [candFold_map]
+    cases hc : candFold N crc wordOf isDigitRune decode induced diffOf cntT docs target crs with
+    | error e =>
+      rw [hc] at h
+      simp only at h
+      subst h
+      exact absurd ⟨r, rfl⟩ (candFold_err_not_ok _ _ _ _ _ _ _ _ _ _ _ _ hc)
+    | ok cands =>
+      rw [hc] at h
+      simp only [Except.map] at h ⊢
+      have hr : r.ms = outOf N cands := by
+        split at h <;> cases h <;> rfl
+      rw [hr, ← outOf_map N hf]
+      split <;> exact ⟨_, rfl, rfl⟩
+
+end LC.V2Match
